@@ -593,6 +593,14 @@ fn long_domains(rng: &mut Rng) -> Vec<Vec<u8>> {
             v.push(format!("\u{FF58}n--{}", &lab[4..]));
         }
     }
+    // labels longer than the 1000-scalar encode cap that contain non-ASCII in the source but map entirely to ASCII
+    // (the cap applies to non-ASCII labels only: fail-fast and mark-errors must agree on which)
+    for n in [999usize, 1000, 1001, 1002] {
+        v.push("\u{FF41}".repeat(n));
+        v.push(format!("{}\u{3002}", a(n)));
+        v.push(format!("{}\u{FF41}", a(n - 1)));
+        v.push(format!("b.{}\u{AD}", a(n)));
+    }
     let big: String = (0..990).map(|_| *rng.pick(&["\u{E9}", "\u{4E2D}", "a"])).collect();
     v.push(puny(&big));
     v.push(big);
@@ -804,6 +812,16 @@ fn run_corr(args: &Args) -> Report {
         if d.is_ascii() {
             compare(&mut drv, &mut rep, "long", &format!("vdl {} 1 {}", CFG, hexb(&d)));
             compare(&mut drv, &mut rep, "long", &format!("vdl {} 0 {}", CFG, hexb(&d)));
+        }
+    }
+    // label-shape cross product: what precedes a mixed-case / already-Punycode label decides which flush path the
+    // output walks take (passthrough prefix, digit-first, underscore, lower-case xn--, non-ASCII)
+    for first in ["1a", "a_b", "xn--4db", "a", "A", "\u{e9}", "a-", "xn--bcher-kva"] {
+        for second in ["xn--Bcher-kva", "xn--bcHer-kva", "XN--BCHER-KVA", "xn--bcher-kva", "xN--4dB", "b\u{fc}cher", "Bcher", "xn--a"] {
+            for third in ["example", "", "\u{5d0}", "xn--4db"] {
+                let d = if third.is_empty() { format!("{}.{}", first, second) } else { format!("{}.{}.{}", first, second, third) };
+                compare(&mut drv, &mut rep, "label-shapes", &full_req(d.as_bytes()));
+            }
         }
     }
     for d in respelled_xn() {
